@@ -157,7 +157,13 @@ def run_child(args):
             ctx.current_case = case
             try:
                 mod.run_case(case, ctx)
-            except Exception:
+            except Exception as ex:
+                from vlib import util
+                key = util.exc_key(ex)
+                if not key.endswith('@?'):
+                    # raised inside library code while the harness was merely using a returned object
+                    ctx.violation('unhandled-library-exception/%s' % key, {'exc': util.exc_detail(ex)})
+                    continue
                 # a harness crash is never a verdict on the library
                 status = 'harness-error'
                 err = 'case %r: %s' % (case, traceback.format_exc()[-3000:])
